@@ -3281,7 +3281,13 @@ class QuicConnection:
             handler=self._on_ack_delivery,
             handler_args=(space, space.largest_received_packet),
         )
-        ranges = push_ack_frame(buf, space.ack_queue, ack_delay_encoded)
+        # Only the most recent ranges are sent if they do not all fit.
+        ranges = push_ack_frame(
+            buf,
+            space.ack_queue,
+            ack_delay_encoded,
+            max_size=builder.remaining_buffer_space,
+        )
         space.ack_at = None
 
         # log frame
